@@ -52,6 +52,11 @@ POINT_PARAMS = [
 # `cost_volume.coords["disp"]` (floats, not NaN), `self._subpix` the integer subpix of the configuration
 DSP_ATOMS = [("disp", "disp", RAT), ("dmin", "dmin", RAT), ("self._subpix", "subpix", INT)]
 
+# rasterio.windows.Window(col_off, row_off, width, height) is an attrs class whose `width` and `height` carry the
+# validator `validate_length_value`: `if value and value < 0: raise ValueError("Number of columns or rows must be
+# non-negative")` (rasterio/windows.py) — (arity, arguments that must not be negative, exception)
+WINDOW_CONSTRUCTOR = (4, (2, 3), "ValueError")
+
 BUILTIN_NAMES = ("max", "min", "abs", "int", "ValueError")
 
 
@@ -116,7 +121,7 @@ def get_window_kernel():
     if not windows:
         raise Unsupported(f"{IMG_TOOLS}: no name is bound to rasterio.windows.Window")
     k = pyexpr.translate_function(fn, "getWindow", WINDOW_PARAMS, source_text=read_source(IMG_TOOLS),
-                                  exceptions=("ValueError",), constructors={w: 4 for w in windows})
+                                  exceptions=("ValueError",), constructors={w: WINDOW_CONSTRUCTOR for w in windows})
     if k.ret_types != [INT] * 4 or not k.ret_shape.endswith("(_, _, _, _)") or k.ret_shape.startswith("("):
         raise Unsupported(f"{IMG_TOOLS}: get_window does not return Window(int, int, int, int): {k.ret_shape} {k.ret_types}")
     if k.partial:
@@ -232,7 +237,7 @@ GOLDEN = {
     "getWindow": [
         ([1, 3, 1, 2, 0, 0, 0, 0], 6, 5), ([1, 3, 1, 2, 2, 1, 3, 4], 6, 5), ([6, 7, 1, 2, 0, 0, 0, 0], 6, 5),
         ([-2, -1, 1, 2, 0, 0, 0, 0], 6, 5), ([-3, -1, -2, 0, 0, 0, 1, 0], 6, 5), ([5, 9, 4, 9, 1, 1, 0, 0], 6, 5),
-        ([2, 1, 0, 0, -1, -2, -3, 0], 0, 0),
+        ([2, 1, 0, 0, -1, -2, -3, 0], 0, 0), ([2, 1, 3, 0, 0, 0, 0, 0], 6, 5), ([1, 2, 3, 0, 0, 0, 0, 0], 6, 5),
     ],
     "pointInterval": [
         (None, [5], [5], 0), (None, [5], [5], 2), (None, [5], [5], -2), (None, [5], [6], Fraction(3, 2)),
